@@ -194,6 +194,11 @@ def run(case, j):
 
         ns = int(est.n_selected_)
         idx = np.asarray(est.selected_idx_)
+        if len(seq) != ns and len(idx) == ns and not stop:
+            # the per-commit wrap point was not driven for every selection (refactored internals): the
+            # private trace only adds observability, the public sequence decides
+            seq = [int(v) for v in idx]
+            j.note("trace_incomplete_public_sequence_used")
         Xs = np.asarray(est.X_selected_)
         has_y = hasattr(est, "y_selected_") and Yc is not None and axis == 0
         nloop = sum(1 for e in picks if e["chosen"] is not None)
